@@ -55,7 +55,7 @@ func loadRepo(dir string) (*Loaded, error) {
 	if nerr > 0 {
 		return nil, fmt.Errorf("%d load errors in %s", nerr, dir)
 	}
-	prog, _ := ssautil.AllPackages(pkgs, ssa.InstantiateGenerics)
+	prog, _ := ssautil.AllPackages(pkgs, ssa.InstantiateGenerics|ssa.GlobalDebug)
 	prog.Build()
 	L := &Loaded{Fset: pkgs[0].Fset, Pkgs: pkgs, Prog: prog, SSAPkgs: map[string]*ssa.Package{}, PkgByPath: map[string]*packages.Package{},
 		RepoDir: dir, loopCache: map[*ssa.Function]map[*ssa.BasicBlock]*loopInfo{}, detailCache: map[*ssa.Function]map[ssa.Instruction]string{},
